@@ -559,8 +559,10 @@ def skeleton(m: HdlcModel):
         res.append(Result("ok", "lookahead", "loop test only", "the amount of buffered data influences control flow only through the loop test"))
     # result list: returned name initialised to [] and only appended to
     rets = [n for n in ast.walk(fn.node) if isinstance(n, ast.Return)]
-    if len(rets) >= 1 and all(isinstance(r_.value, ast.Name) and r_.value.id == getattr(rets[0].value, "id", None) for r_ in rets):
-        rn = rets[0].value.id
+    named = [r_ for r_ in rets if isinstance(r_.value, ast.Name)]
+    if named and all(r_.value.id == named[0].value.id for r_ in named) and all(r_ in named or (isinstance(r_.value, ast.List) and not r_.value.elts) for r_ in rets):
+        # (an early `return []` hands out a fresh empty list just like the named one)
+        rn = named[0].value.id
         stores = [n for n in ast.walk(fn.node) if isinstance(n, ast.Name) and n.id == rn and isinstance(n.ctx, ast.Store)]
         if len(stores) == 1:
             res.append(Result("ok", "result", rn, "append-only result list created per call and returned"))
